@@ -431,6 +431,10 @@ fn meta_alphabet() -> Vec<Alt> {
         m("kv-empty", "; key:"),
         m("kv-unicode", "; \u{9375}: \u{5024} \u{3067}\u{3059}"),
         m("tags-unicode", "; :\u{65e5}\u{672c}:tag:"),
+        // horizontal white space after the last colon of a tag line, before the line ends
+        m("tags-trailing-blank", "; :trip:food: "),
+        m("tags-trailing-tab", "; :trip:food:\t"),
+        m("kv-trailing-blanks", "; key: value  "),
         m("kv-punct-value", "; url: http://x.y/z;w :a:"),
         m("kv-expr-tight", ";amt::10 USD"),
         d("plain", "; plain text", WHY_PLAIN),
